@@ -9,8 +9,9 @@ from ..core import Batch, cZ, clist, cpair
 ID = "C17"
 LEVEL = "proof"
 PROP_FILE = "Properties/C17.v"
-PROOF_FILES = ["Gen/RmqGen.v", "Proofs/RmqGenProofs.v", "Proofs/EulerProofs.v", "Proofs/RmqProofs.v", "Model/Euler.v", "Model/Rmq.v"]
+PROOF_FILES = ["Gen/LcaGen.v", "Proofs/LcaGenProofs.v", "Gen/RmqGen.v", "Proofs/RmqGenProofs.v", "Proofs/EulerProofs.v", "Proofs/RmqProofs.v", "Model/Euler.v", "Model/Rmq.v"]
 TRUSTED = [
+    "translator translator/pyfun.py + the type table in translator/lca_gen.py: _euler_tour and class LowestCommonAncestor of utils/trees.py are translated into Gen/LcaGen.v on every run (nodes = identifiers, identity equality, the tree is not modified after construction) and proved equal to Model/Euler.v",
     "translator translator/pyfun.py + the type table in translator/rmq_gen.py: utils/range_min_query.py is translated statement by statement into Gen/*.v on every run and proved equal to the hand-written model",
     "model Model/Rmq.v of utils/range_min_query.py (sparse table built row by row, query by two overlapping blocks)",
     "model Model/Euler.v of _euler_tour / LowestCommonAncestor in utils/trees.py (nodes identified by root paths)",
@@ -463,7 +464,9 @@ def _random_queries(rng, shape, count):
 def pre_build(ctx):
     from translator import rmq_gen
     from .. import core
+    from translator import lca_gen
     changed = rmq_gen.regenerate(core.REPO)
+    changed = lca_gen.regenerate(core.REPO) or changed
     ctx.notes.append("Gen file of utils/range_min_query.py " + ("regenerated (content changed)" if changed else "regenerated: unchanged"))
 
 
@@ -575,7 +578,7 @@ def batches(ctx):
 
 TECHNIQUE = ("translator tie: the source module is regenerated into Gallina on every run and proved equal to the model; Coq proof (induction on the sparse-table depth; nested induction on rose trees for the Euler tour) of model = specification "
              "on root paths; model tied to the code by exhaustive small-domain + random correspondence evaluated with vm_compute")
-LEVEL_TEXT = ("Machine-checked theorems for trees of any arity and size and arrays of any length: the range-minimum query returns an element of "
+LEVEL_TEXT = ("Both halves of the code are tied to the models by translation: RangeMinQuery (Gen/RmqGen.v) and _euler_tour + LowestCommonAncestor (Gen/LcaGen.v: constructor, query, is_ancestor_of, is_strict_ancestor_of, is_comparable, level, distance) are regenerated from the source on every run and proved equal to the hand-written models for all trees with distinct node identities and all queries, error cases included. Machine-checked theorems for trees of any arity and size and arrays of any length: the range-minimum query returns an element of "
               "exactly data[i..j) that is <= all of them (None for an empty range); the LCA query on any non-empty list of nodes returns the longest "
               "common prefix of their root paths (= the deepest common ancestor); ancestor / strict ancestor / comparable / level / distance equal "
               "prefix / strict prefix / either prefix / length / |p|+|q|-2|lcp|; Python's tuple comparison never reaches the nodes. "
